@@ -87,7 +87,57 @@ def page_reuse(rng):
     return ops
 
 
+def handover(rng):
+    """main fills k pages of one class completely, part of the blocks in slots owned by the worker threads, releases its
+    own share (the pages are retired and nearly empty), then the workers release the last blocks of those pages while
+    others acquire and release in the same class: exercises the give-back of a page against concurrent use of its chunks"""
+    size, cpp = rng.choice([(512, 7), (400, 7), (256, 15), (130, 15), (128, 31)])
+    nthr = rng.choice([2, 2, 3])
+    k = rng.choice([1, 1, 2])
+    total = cpp * k
+    held = {t: rng.randint(0 if t > 1 else 1, 3) for t in range(1, nthr + 1)}     # blocks handed to each worker
+    main_ops, idx = [], 0
+    mine = []
+    order = list(range(total))
+    owner = {}
+    give = [(t, i) for t in held for i in range(held[t])]
+    rng.shuffle(give)
+    give = give[:total]
+    held = {t: sum(1 for g in give if g[0] == t) for t in held}
+    give = [(t, i) for t in held for i in range(held[t])]
+    pos = sorted(rng.sample(order, len(give)))
+    for j in order:
+        if j in pos:
+            t, i = give[pos.index(j)]
+            main_ops.append("A%d:%d" % (t * 16 + i, size))
+        else:
+            main_ops.append("A%d:%d" % (64 + len(mine), size))
+            mine.append(64 + len(mine))
+    rng.shuffle(mine)
+    main_ops += ["F%d" % m for m in mine] + ["Q"]
+    lines = ["SBA 1", "MAIN " + " ".join(main_ops)]
+    for t in range(1, nthr + 1):
+        ops = ["F%d" % i for i in range(held[t])]
+        extra = []
+        for _ in range(rng.randint(0, 3)):
+            sl = rng.randint(8, 12)
+            extra += ["A%d:%d" % (sl, rng.choice([size, size, size - 1])), "F%d" % sl]
+        # interleave: keep each A before its F, releases of handed-over blocks anywhere
+        merged, a, b = [], 0, 0
+        while a < len(ops) or b < len(extra):
+            if b >= len(extra) or (a < len(ops) and rng.random() < 0.5):
+                merged.append(ops[a]); a += 1
+            else:
+                merged += extra[b:b + 2]; b += 2
+        lines.append("THREAD %d %s" % (t, " ".join(merged)))
+    lines.append("POST Q")
+    return lines
+
+
 def scenario(rng):
+    r = rng.random()
+    if r < 0.08:
+        return handover(rng)
     r = rng.random()
     if r < 0.35:
         return ["SBA %d" % rng.choice([0, 1]), "MAIN " + " ".join(rand_ops(rng, rng.randint(10, 38)))]
@@ -109,6 +159,12 @@ CORE = [
     ["SBA 1", "THREAD 1 A0:32 F0 A0:32", "THREAD 2 A0:32 F0"],
     ["SBA 1", "MAIN A0:512 A1:512", "THREAD 1 F0 A2:512 R2:100", "THREAD 2 A0:500 F0 A0:300 R0:513"],
     ["SBA 1", "THREAD 1 A0:64 A1:64 F0 F1", "THREAD 2 A0:64 R0:0 A1:40", "THREAD 3 A0:33 F0"],
+    # a retired page with one live block: its release races with an acquire + release of the same class
+    ["SBA 1", "MAIN A16:512 A64:512 A65:512 A66:512 A67:512 A68:512 A69:512 F64 F65 F66 F67 F68 F69", "THREAD 1 F0",
+     "THREAD 2 A0:512 F0", "POST Q"],
+    # two live blocks of a retired page released by two threads
+    ["SBA 1", "MAIN A16:500 A32:500 A65:512 A66:512 A67:512 A68:512 A69:512 F65 F66 F67 F68 F69", "THREAD 1 F0 A1:512 F1",
+     "THREAD 2 F0", "POST Q"],
 ]
 
 
